@@ -1,4 +1,5 @@
 import Model.Program
+import Model.ReqArg
 import Model.Dag
 /-!
 # Line-protocol driver for the executable model (core only, links as a `lean_exe`)
@@ -168,6 +169,8 @@ structure DState where
   script : List DefOp := []
   prog : Option (Except DefErr BState) := none
   parsed : Option ParseOut := none
+  reqRest : List Str := []            -- the list the next `GetRequiredArg*` call is handed
+  reqIdx : List (Nat × Nat) := []     -- `SynopsisArgsIdx` of the objects asked so far (node ↦ counter)
   dag : GoModel.Dag.DriverState := {}
 
 def DState.ext (d : DState) : Ext := {
@@ -204,6 +207,10 @@ def pairsOf (ps : List Pair) : String :=
 def sectionOf : String → Option Section
   | "1" => some .defaultName | "2" => some .name | "3" => some .synopsis | "4" => some .commandList
   | "5" => some .optionList | "6" => some .commandInfo | _ => none
+
+def lookupNat (k : Nat) : List (Nat × Nat) → Option Nat
+  | [] => none
+  | (a, v) :: r => if a == k then some v else lookupNat k r
 
 def handleLine (d : DState) (line : String) : DState × Option String :=
   let ws := (line.trimAscii.toString.splitOn " ").filter (· != "")
@@ -260,7 +267,7 @@ def handleLine (d : DState) (line : String) : DState × Option String :=
         let r := parseUser d.ext P args
         let st := match r.err with | some e => "st=err err=" ++ uerrOf e | none => "st=ok"
         let rem := match r.remaining with | some l => listOf l | none => "nil"
-        ({ d with parsed := some r },
+        ({ d with parsed := some r, reqRest := r.remaining.getD [] },
          some s!"P {st} rem={rem} warn={listOf r.warnings} final={pathNames r.st.P r.st.cur} {optsOf r.st.P} {viewsOf r.st.P B.handles}")
   | ["setvalue", h, name, l] =>
     -- `SetValue` on the object of handle `h` after a successful parse
@@ -275,6 +282,27 @@ def handleLine (d : DState) (line : String) : DState × Option String :=
          some s!"S {st} {optsOf P'} {viewsOf P' B.handles}")
       | _, _ => (d, some "S none=1")
     | _, _, _, _, _ => (d, some "S none=1")
+  | ["reqarg", h, k, secs] =>
+    -- `GetRequiredArg` (k = 0), `GetRequiredArgInt` (1), `GetRequiredArgFloat64` (2) on the object of handle `h`
+    let kind : Option ReqKind := match k with
+      | "0" => some .str | "1" => some .int | "2" => some .float | _ => none
+    let secs : Option (List Section) := if secs == "-" then some [] else (secs.splitOn ",").mapM sectionOf
+    match d.parsed, d.prog, h.toNat?, kind, secs with
+    | some r, some (.ok B), some h, some kind, some secs =>
+      match r.remaining, B.handles[h]? with
+      | some _, some n =>
+        let idx := (lookupNat n d.reqIdx).getD 0
+        let (idx', out) := getRequiredArg d.ext r.st.P n (if h == 0 then r.st.cur else n) idx kind d.reqRest secs
+        let d' := { d with reqIdx := (n, idx') :: d.reqIdx.filter (·.1 != n) }
+        match out with
+        | .ok v rest => ({ d' with reqRest := rest }, some s!"R st=ok v={hexOf v} rest={listOf rest}")
+        | .missing named help =>
+          let nm := match named with | some a => hexOf a | none => "none"
+          (d', some s!"R st=missing named={nm} help={hexOf help} rest={listOf d.reqRest}")
+        | .convInt a rest => ({ d' with reqRest := rest }, some s!"R st=convint a={hexOf a} rest={listOf rest}")
+        | .convFloat a rest => ({ d' with reqRest := rest }, some s!"R st=convfloat a={hexOf a} rest={listOf rest}")
+      | _, _ => (d, some "R none=1")
+    | _, _, _, _, _ => (d, some "R none=1")
   | ["dispatch"] =>
     match d.parsed with
     | none => (d, some "D none")
